@@ -173,6 +173,16 @@ def print_cases(thorough):
             yield {"entries": ents, "cmd": cmd}
 
 
+def time_cases(thorough):
+    """recorded modification times over the whole 32-bit range (seconds since 1970, unsigned): files and directories, every level"""
+    f = lambda p, n, t, **kw: dict({"k": "f", "path": p, "name": n, "perms": 0o100644, "mtime": t, "data": hx(b"x")}, **kw)
+    d = lambda p, t, perms=0o040755, **kw: dict({"k": "d", "path": p, "name": "", "perms": perms, "mtime": t}, **kw)
+    for t in (1, 86399, 86400, 2 ** 31 - 2, 2 ** 31 - 1, 2 ** 31, 2 ** 31 + 1, 3000000000, 4102444800, 2 ** 32 - 2, 2 ** 32 - 1):
+        for level in (2, 1, 0):
+            for cmd in ("xf", "xq2"):
+                yield {"entries": [d("dir/", t, level=level), f("dir/", "f", t, level=level), d("dir/ro/", t - 1 if t > 1 else 2, 0o040555, level=level), f("", "g", t, level=level)], "cmd": cmd, "uid": cli.NOBODY}
+
+
 def many_cases(thorough):
     """archives with hundreds of entries of one kind: counters, stacks and lists inside the tool and the library pass 255/256"""
     f = lambda p, n, perms=0o100644, t=T1, **kw: dict({"k": "f", "path": p, "name": n, "perms": perms, "mtime": t, "data": hx(("d %s%s" % (p, n)).encode())}, **kw)
@@ -209,6 +219,7 @@ def run(ctx):
     cliprop.run_space(ctx, "props.cli_c06", "wildcards", glob_cases(T), chunk=8)
     cliprop.run_space(ctx, "props.cli_c06", "print", print_cases(T), chunk=64)
     cliprop.run_space(ctx, "props.cli_c06", "many", many_cases(T), chunk=1)
+    cliprop.run_space(ctx, "props.cli_c06", "times", time_cases(T), chunk=4)
     # the three library directory policies: every entry of 8 generated archives extracted through lha_reader_extract with the
     # header's own names; resulting tree compared with the member table (modes and mtimes of directories for the deferring policies)
     import build
@@ -220,7 +231,7 @@ def run(ctx):
     return ctx.finish(
         rule="'tree-shapes': ALL trees with up to 4 (thorough 5) archive entries, up to 3 children per directory, depth <= 3, node kinds {dir 0755/0555/0700, implicit dir, file 0644/0400, safe link, dangerous link}, sibling names a/ab/b, two timestamps, extracted with 'x' unprivileged; "
              "'options': 4 fixed trees (flat with lh5/lzs members, nested read-only, links, MacBinary/level-0/1 members) x every ordered option word of up to 2 (3) letters from {f,q0,q1,q2,i,w=OUT,v} x {x,e}; "
-             "'overwrite': every subset of pre-existing members x every answer string up to the number of prompts over {y,n,a,s,empty,junk,Yes,N}, plus f/q; 'wildcards': every pattern up to length 3 (4) over {a,b,*,?,/} against 100+ stored paths; 'macbinary': MacLHA members with data/resource fork lengths around multiples of 128 (envelope recognised <=> declared length is the 128-rounded sum) under xf and pq2; 'print': p/pq/pq1 over all trees of up to 3 entries; 'many': 255/256/257/300 (600) sibling directories with files, plain files, safe links and dangerous links in one archive, directory chains 20 and 60 deep. "
+             "'overwrite': every subset of pre-existing members x every answer string up to the number of prompts over {y,n,a,s,empty,junk,Yes,N}, plus f/q; 'wildcards': every pattern up to length 3 (4) over {a,b,*,?,/} against 100+ stored paths; 'macbinary': MacLHA members with data/resource fork lengths around multiples of 128 (envelope recognised <=> declared length is the 128-rounded sum) under xf and pq2; 'print': p/pq/pq1 over all trees of up to 3 entries; 'times': recorded times 1, 86399/86400, 2^31-2..2^31+1, 3x10^9, 2100-01-01, 2^32-2, 2^32-1 on files and directories at levels 0/1/2; 'many': 255/256/257/300 (600) sibling directories with files, plain files, safe links and dangerous links in one archive, directory chains 20 and 60 deep. "
              "Oracle: final tree == model tree on content, mtime, mode & 0777, link target, directory mode and mtime; stdout == banner + bytes for p. non-trivial = runs that created at least one object / printed",
         replay_fn=lambda rep: (cliprop.replay_case(rep) if rep.get('kind') == 'cli' else runner.replay_explorer(rep, quiet=True)))
 
